@@ -24,7 +24,7 @@ VS_SIG, VS_VER = 0xfeef04bd, 0x00010000
 MISC_NINTS = {1: 6, 2: 11, 3: 15 + (1 + 32 + 8 + 1 + 32 + 8 + 1), 4: 15 + 83 + 300, 5: 15 + 83 + 300 + 3 + 128 + 1}
 MISC_SIGNED = {3: {15, 15 + 41, 15 + 82}}
 SECTIONS = ["hdr", "sys", "thr", "mod", "mem", "memq", "m64", "m64q", "exc", "tnm", "unl", "mi", "misc",
-            "bp", "asr", "ti", "lxcpu", "lxstatus", "lxlsb", "lxenv", "lxmaps", "lxlim", "hnd", "dir", "unk", "serr", "boot", "cpad"]
+            "bp", "asr", "ti", "lxcpu", "lxstatus", "lxlsb", "lxenv", "lxmaps", "lxlim", "hnd", "dir", "unk", "serr", "boot", "cpad", "hinfo"]
 RAW_KEYS = ["lxcpu", "lxstatus", "lxlsb", "lxenv", "lxmaps", "lxlim"]
 KV_SEP = {"lxcpu": b":", "lxstatus": b":", "lxlsb": b"=", "lxenv": b"="}
 
@@ -67,8 +67,8 @@ def expected_dir(h, big):
 # Coq-serialized dump and announced by (leading) directory entries.  The extracted Coq serializers enc_bootargs / enc_crashpad
 # must produce the same bytes (checked in gen_cases), the extracted readers and the real readers read them back.
 T_SERR, T_BOOT, T_CPAD = 0x4d7a0004, 0x4d7a0002, 0x43500001
-TAIL_TYPE = {1: T_SERR, 2: T_BOOT, 3: T_CPAD}
-TAIL_SEC = {1: "serr", 2: "boot", 3: "cpad"}
+TAIL_TYPE = {1: T_SERR, 2: T_BOOT, 3: T_CPAD, 4: 12}
+TAIL_SEC = {1: "serr", 2: "boot", 3: "cpad", 4: "hnd"}
 
 
 def _u(n, v, big):
@@ -142,11 +142,47 @@ def ser_bootargs(x, off, big):
     return 12, _u(4, ty, big) + _u(8, off + 12, big) + _u(4, 2 * len(args), big) + b"".join(_u(2, c, big) for c in args)
 
 
+def ser_handles(x, off, big):
+    """handle data stream whose 40-byte descriptors carry object-information chains; the records of a chain are stored in
+    the order given by the handle's permutation (chain order, last record first, scattered)"""
+    esize = 40 if x["v2"] else 32
+    hs = x["handles"]
+    ssize = 16 + len(hs) * esize
+    ents, aux = b"", b""
+    for h in hs:
+        o = off + ssize + len(aux)
+        a = b""
+        trva = orva = irva = 0
+        if h["type"] is not None:
+            trva = o + len(a)
+            a += _u(4, 2 * len(h["type"]), big) + b"".join(_u(2, c, big) for c in h["type"])
+        if h["obj"] is not None:
+            orva = o + len(a)
+            a += _u(4, 2 * len(h["obj"]), big) + b"".join(_u(2, c, big) for c in h["obj"])
+        n = len(h["infos"])
+        if n and x["v2"]:
+            base = o + len(a)
+            recs = [b""] * n
+            for k, (ty, size) in enumerate(h["infos"]):
+                nxt = base + 12 * h["perm"][k + 1] if k + 1 < n else 0
+                recs[h["perm"][k]] = _u(4, nxt, big) + _u(4, ty, big) + _u(4, size, big)
+            irva = base + 12 * h["perm"][0]
+            a += b"".join(recs)
+        e = _u(8, h["h"], big) + _u(4, trva, big) + _u(4, orva, big) + b"".join(_u(4, v, big) for v in h["ints"])
+        if x["v2"]:
+            e += _u(4, irva, big) + _u(4, 0, big)
+        ents += e
+        aux += a
+    return ssize, _u(4, 16, big) + _u(4, esize, big) + _u(4, len(hs), big) + _u(4, 0, big) + ents + aux
+
+
 def ser_tail(kind, x, off, big, corrupt=True):
     if kind == 1:
         return len(x), bytes(x)
     if kind == 2:
         return ser_bootargs(x, off, big)
+    if kind == 4:
+        return ser_handles(x, off, big)
     del NUL_AT[:]
     z, b = ser_crashpad(x, off, big)
     k = x.get("nonul", -1)
@@ -168,6 +204,12 @@ def bstr_toks(b):
 def tail_toks(kind, x):
     if kind == 1:
         return bstr_toks(x)
+    if kind == 4:
+        t = [x["v2"], len(x["handles"])]
+        for h in x["handles"]:
+            t += [h["h"]] + ([-1] if h["type"] is None else str_toks(h["type"])) + ([-1] if h["obj"] is None else str_toks(h["obj"])) + list(h["ints"])
+            t += [len(h["infos"])] + [v for i in h["infos"] for v in i] + list(h["perm"])
+        return t
     if kind == 2:
         return [x[0]] + ([-1] if x[1] is None else str_toks(x[1]))
     t = [x["ver"]] + list(x["report"]) + list(x["client"])
@@ -197,6 +239,18 @@ def parse_tail(r, kind):
         return [(bs(), bs()) for _ in range(r.int())]
     if kind == 1:
         return bs()
+    if kind == 4:
+        def ostr4():
+            n = r.int()
+            return None if n == -1 else r.ints(n)
+        x = {"v2": r.int(), "handles": []}
+        for _ in range(r.int()):
+            h = {"h": r.int(), "type": ostr4(), "obj": ostr4(), "ints": r.ints(4)}
+            n = r.int()
+            h["infos"] = [tuple(r.ints(2)) for _ in range(n)]
+            h["perm"] = r.ints(n)
+            x["handles"].append(h)
+        return x
     if kind == 2:
         ty = r.int()
         n = r.int()
@@ -224,8 +278,22 @@ def bl(b):
     return [len(b)] + list(b)
 
 
+def chain_expect(x, h):
+    """(info_type, size) of the chain in chain order; a record of an unknown type ends the walk"""
+    out = []
+    if x["v2"]:
+        for ty, size in h["infos"]:
+            if not 0 <= ty <= 9:
+                break
+            out += [ty, size]
+    return [len(out) // 2] + out
+
+
 def tail_expect(kind, x):
     """what reading the stream must give: (status, items)"""
+    if kind == 4:
+        return (2, [[2 if x["v2"] else 1, h["h"]] + list(h["ints"]) + ([-1] if h["type"] is None else str_toks(h["type"]))
+                    + ([-1] if h["obj"] is None else str_toks(h["obj"])) for h in x["handles"]])
     if kind == 1:
         return (2, [bl(x)]) if is_utf8(x) else (1, [])
     if kind == 2:
@@ -789,8 +857,13 @@ def expected(m):
     for kind in (1, 2, 3):
         l = [x for k2, x in (m.get("tail") or []) if k2 == kind]
         E[TAIL_SEC[kind]] = tail_expect(kind, l[-1]) if l else (0, [])
+    th = [x for k2, x in (m.get("tail") or []) if k2 == 4]
     E["hnd"] = sec("hnd", lambda x: all(valid_utf16(h["type"] or []) and valid_utf16(h["obj"] or []) for h in x[1]),
                    lambda x: [[2 if x[0] else 1, h["h"]] + h["ints"] + onm(h["type"]) + onm(h["obj"]) for h in x[1]])
+    E["hinfo"] = sec("hnd", lambda x: True, lambda x: [[0] for _ in x[1]])
+    if th and m.get("hnd") is None:          # the plugin-written handle stream (with object-information chains) is the one served
+        E["hnd"] = tail_expect(4, th[-1])
+        E["hinfo"] = (2, [chain_expect(th[-1], h) for h in th[-1]["handles"]])
     return E
 
 
@@ -1196,6 +1269,7 @@ class Gen:
                 return units()
             m["hnd"] = (r.below(2), [{"h": self.u(64), "type": oname(), "obj": oname(), "ints": [self.u(32) for _ in range(4)]}
                                      for _ in range(self.count())])
+        self.cur_no_hnd = m.get("hnd") is None
         m["tail"] = self.tail(wf)
         return m
 
@@ -1254,6 +1328,28 @@ class Gen:
                                           "list": [self.bstr(wf) for _ in range(r.choice([0, 1, 2, 4]))], "simple": kvs(),
                                           "objs": [annot() for _ in range(r.choice([0, 1, 2, 4]))]}
                                          for _ in range(r.choice([0, 1, 1, 2, 3]))]}))
+        if self.cur_no_hnd and r.chance(1, 2):
+            def oname():
+                if r.chance(1, 3):
+                    return None
+                while True:
+                    u = self.units()
+                    if valid_utf16(u):
+                        return u
+            hs = []
+            for _ in range(r.choice([0, 1, 2, 3, 5])):
+                n = r.choice([0, 1, 2, 2, 3, 3, 4, 6])
+                infos = [(r.range(0, 9) if (wf or r.chance(7, 8)) else r.choice([10, 11, self.u(32)]), self.u(32)) for _ in range(n)]
+                st = r.below(3)
+                perm = list(range(n))
+                if st == 1:
+                    perm.reverse()                      # last record first: every link points to a lower offset
+                elif st == 2:
+                    for i in range(n - 1, 0, -1):
+                        j = r.below(i + 1)
+                        perm[i], perm[j] = perm[j], perm[i]
+                hs.append({"h": self.u(64), "type": oname(), "obj": oname(), "ints": [self.u(32) for _ in range(4)], "infos": infos, "perm": perm})
+            out.append((4, {"v2": 1 if r.chance(5, 6) else 0, "handles": hs}))
         # any order of the streams in the file
         for i in range(len(out) - 1, 0, -1):
             j = r.below(i + 1)
@@ -1410,6 +1506,8 @@ class C02(PropBase):
         rng = Rng(seed)
         g = Gen(rng, tier)
         n = 460 if tier == "quick" else 3000
+        if os.environ.get("VERIF_REPO") and os.environ.get("VERIF_C02_MODELS"):      # developer runs (mutation experiments) only
+            n = int(os.environ["VERIF_C02_MODELS"])
         models = []
         for i in range(n):
             models.append(g.model(well_formed=(i % 3 != 2)))
@@ -1458,7 +1556,7 @@ class C02(PropBase):
                     raise vlib.CheckFailure("plugin-written stream would not land at its recorded offset (%d != %d)" % (len(h) // 2, off))
                 b = ser_tail(kind, x, off, big)[1]
                 h = (h if h != "-" else "") + b.hex()
-                if kind != 1:
+                if kind in (2, 3):
                     xlines.append("T %d %d %d %s" % (kind, mm["endian"], off, " ".join(map(str, tail_toks(kind, x)))))
                     xwant.append(ser_tail(kind, x, off, big, corrupt=False)[1].hex() or "-")
             hexes[i] = h
